@@ -18,7 +18,9 @@ def run_walks(ctx, kinds_wanted, ops_wanted, n_quick, n_thorough, regress_names=
         report.count("corpus", name)
         if not r["ok"]:
             violations.append({"kind": "corpus", "case": name, "detail": r["detail"]})
-    n = n_quick if ctx["tier"] == "quick" else n_thorough
+    n = n_quick * nv.boost("engine") if ctx["tier"] == "quick" else n_thorough
+    report.cov["budget_boost"] = nv.boost("engine")
+    report.cov["source_files_changed_since_validation"] = nv.changed_files()
     if (not ctx["proof"]["ok"]) and ctx["tier"] == "quick":
         n = n * 4
     reqs = []
